@@ -279,7 +279,7 @@ PROPS = {
     ),
     "C05": dict(
         modules=["Whawty.Props.C05", "Whawty.Props.GenCodec"],
-        suites=[("hdrv+pam", "c05")],
+        suites=[("hdrv+pam", "c05"), ("overlay4", "v10fd")],
         level_text="handleConnection is modelled as decode (the C13 scanner model) -> callback at most once -> one "
                    "clipped reply -> close; callback-at-most-once with exactly the decoded fields, positive-only-if, "
                    "exactly one decodable reply (Go client model and PAM model both read the verdict) and fragmentation "
